@@ -20,7 +20,7 @@ Separate Extraction
   Model.Router.model_C07 Model.Router.ok_C07 Model.Router.ok_C07_pair Model.Router.answer_eqb Model.JsonPtr.parse Model.JsonPtr.struct_segments Model.JsonPtr.well_escaped Model.JsonPtr.pointer_shaped
   Model.Route.model_C03 Model.Route.ok_C03 Model.Route.c03_wf Model.Route.c03_obs_eqb
   Model.OffReader.model_C16 Model.OffReader.ok_C16 Model.OffReader.ok_C16_clause Model.OffReader.c16_wf Model.OffReader.c16_obs_eqb
-  Model.ClientMux.model_C04 Model.ClientMux.ok_C04 Model.ClientMux.c04_wf Model.ClientMux.c04_obs_eqb Model.ClientMux.brun
+  Model.ClientMux.model_C04 Model.ClientMux.model_C04_nosub Model.ClientMux.ok_C04_nosub Model.ClientMux.ok_C04 Model.ClientMux.c04_wf Model.ClientMux.c04_obs_eqb Model.ClientMux.brun
   Model.Lifecycle.model_C15 Model.Lifecycle.ok_C15 Model.Lifecycle.c15_wf Model.Lifecycle.c15_obs_match Model.Lifecycle.model_mid Model.Lifecycle.ok_mid Model.Lifecycle.c15_stag_wf Model.Lifecycle.mobs_eqb
   Model.ClientFail.model_C06 Model.ClientFail.ok_C06 Model.ClientFail.c06_wf Model.ClientFail.c06_valid Model.ClientFail.obs_eqb Model.ClientFail.obs_match
   Model.WriterSM.model_C05 Model.WriterSM.model_with Model.WriterSM.ok_C05 Model.WriterSM.c05_wf Model.WriterSM.segs_eqb Model.WriterSM.parse_frames Model.WriterSM.after_interrupt Model.WriterSM.legacy_policy.
